@@ -682,6 +682,15 @@ fn corrupt_text(ctx: &mut Ctx, text: &str, other: &str) -> (Vec<u8>, String) {
     let mut b: Vec<u8> = text.as_bytes().to_vec();
     let n = ctx.tape.range(1, 3);
     let mut ops = Vec::new();
+    if ctx.tape.choose(12) == 11 {
+        // not derived from any record: a string over the FEN alphabet plus a few hostile bytes
+        let len = ctx.tape.log_uniform(120);
+        b.clear();
+        for _ in 0..len {
+            b.push(*ctx.tape.pick(b"pnbrqkPNBRQK12345678//// wb-KQkqabcdefgh36090 \0\xff\x80\t\n9"));
+        }
+        return (b, "random-bytes".to_string());
+    }
     for _ in 0..n {
         let which = ctx.tape.choose(11);
         let len = b.len() as u32;
@@ -1017,7 +1026,53 @@ fn probes(ctx: &mut Ctx, s: &Session, l1: &[Mv]) {
             _ => {}
         }
     }
+    for &m in l1 {
+        match s.model.kind(m) {
+            MoveKind::CastleK | MoveKind::CastleQ => {
+                if s.model.make(m).in_check() {
+                    st.bump("probe.castle-gives-check");
+                }
+            }
+            MoveKind::PromoQ => {
+                if s.model.sq[m.to as usize] != m1::EMPTY {
+                    st.bump("probe.promotion-with-capture");
+                    if matches!(m.to, 0 | 7 | 56 | 63) {
+                        st.bump("probe.promotion-captures-corner-rook-square");
+                    }
+                }
+            }
+            _ => {}
+        }
+    }
     if s.model.ep.is_some() {
+        // classify every en-passant candidate (the cases the property text names)
+        let in_check = s.model.in_check();
+        let king = s.model.king_sq(s.model.stm);
+        for m in s.model.pseudo_legal().into_iter().filter(|&m| s.model.is_ep_capture(m)) {
+            let legal = l1.contains(&m);
+            // is the capturer pinned (removing it alone exposes the king)?
+            let mut without = s.model.clone();
+            without.sq[m.from as usize] = m1::EMPTY;
+            let capturer_pinned = king.map(|k| !in_check && without.attacked(k, s.model.stm ^ 1)).unwrap_or(false);
+            let mut without_victim = s.model.clone();
+            let victim = m1::sq(m1::file_of(m.to), m1::rank_of(m.from));
+            without_victim.sq[victim as usize] = m1::EMPTY;
+            let victim_shields = king.map(|k| !in_check && without_victim.attacked(k, s.model.stm ^ 1)).unwrap_or(false);
+            let tag = match (legal, in_check, capturer_pinned, victim_shields) {
+                (true, true, _, _) => "legal-while-in-check",
+                (false, true, _, _) => "illegal-while-in-check",
+                (true, false, true, _) => "legal-by-pinned-capturer-along-its-line",
+                (false, false, true, _) => "illegal-pinned-capturer",
+                (true, false, false, true) => "legal-although-victim-shields-king",
+                (false, false, false, true) => "illegal-victim-shields-king",
+                (false, false, false, false) => "illegal-rank-discovery",
+                (true, false, false, false) => "legal-plain",
+            };
+            st.bump(&format!("probe.ep.{tag}"));
+            if legal && s.model.make(m).in_check() {
+                st.bump("probe.ep.gives-check");
+            }
+        }
         st.bump("probe.ep-marker-set");
         // ep pseudo-legal but illegal?
         let pi = s.model.pseudo_illegal();
@@ -1069,6 +1124,8 @@ struct LoopState {
     recent: Vec<(Board, Pos1)>,
     other_text: String,
     history_text: Vec<String>,
+    /// compact history of the session for the evidence samples
+    trace: Vec<String>,
 }
 
 fn one_ply(ctx: &mut Ctx, st: &mut LoopState, ply: u32) -> Step<Flow> {
@@ -1199,6 +1256,9 @@ fn one_ply(ctx: &mut Ctx, st: &mut LoopState, ply: u32) -> Step<Flow> {
 
         // faults
         if st.cfg.corrupt_in > 0 && ctx.tape.choose(st.cfg.corrupt_in) == 0 {
+            if st.trace.len() < 48 {
+                st.trace.push("[corrupt-record]".into());
+            }
             if ctx.tape.choose(4) == 0 {
                 corrupt_builder(ctx, &mut st.s)?;
             } else {
@@ -1212,6 +1272,9 @@ fn one_ply(ctx: &mut Ctx, st: &mut LoopState, ply: u32) -> Step<Flow> {
             }
         }
         if st.cfg.restart_in > 0 && ctx.tape.choose(st.cfg.restart_in) == 0 {
+            if st.trace.len() < 48 {
+                st.trace.push("[restart]".into());
+            }
             restart(ctx, &mut st.s)?;
         }
 
@@ -1233,6 +1296,9 @@ fn one_ply(ctx: &mut Ctx, st: &mut LoopState, ply: u32) -> Step<Flow> {
         };
         ctx.stats.bump("plies");
         ctx.stats.bump(&format!("kind.{kind:?}"));
+        if st.trace.len() < 48 {
+            st.trace.push(format!("{}:{}", m.text(), APPLY_NAMES[which as usize]));
+        }
         // the shadow replica takes the same move
         if let Some((sh, j, tag)) = st.s.shadow.take() {
             match apply_checked(&sh, m, which) {
@@ -1345,8 +1411,7 @@ pub fn run(ctx: &mut Ctx) -> Step {
         last_kind: None,
         last_gave_check: false,
     };
-    ctx.stats.sample(|| format!("start {fen0}"));
-    let mut st = LoopState { s, cfg, seen: BTreeMap::new(), three_fold: chess_engine::ThreeFold::new(), table: Default::default(), recent: Vec::new(), other_text: fen0.clone(), history_text: Vec::new() };
+    let mut st = LoopState { s, cfg, seen: BTreeMap::new(), three_fold: chess_engine::ThreeFold::new(), table: Default::default(), recent: Vec::new(), other_text: fen0.clone(), history_text: Vec::new(), trace: Vec::new() };
     for ply in 0..st.cfg.ply_limit {
         match one_ply(ctx, &mut st, ply) {
             Ok(Flow::Continue) => {}
@@ -1364,6 +1429,8 @@ pub fn run(ctx: &mut Ctx) -> Step {
         }
     }
     ctx.stats.bump("runs.completed");
+    let trace = std::mem::take(&mut st.trace);
+    ctx.stats.sample(|| format!("{} from {fen0} :: {}", gen::GEN_NAMES[st.cfg.gen as usize], trace.join(" ")));
     Ok(())
 }
 
